@@ -91,29 +91,37 @@ def imsaakParams1 (p : Params α) : Params α :=
 def imsaakParams2 (p : Params α) : Params α :=
   { p with minFajr := p.minFajr - (if Sc.eqb p.intImsaak 0.0 then Gen.DEF_IMSAAK_ANGLE else p.intImsaak) }
 
-/-- get_imsaak, given how to run the policy layer for a parameter set -/
+def optTime (p : Params α) (prayer : Prayer) : Option (PH α) → Except Panic (Option PT)
+  | none => .ok none
+  | some ph => match toPrayerTime p prayer ph with
+    | .error e => .error e
+    | .ok t => .ok (some t)
+
+def fajrExtreme (h : PHours α) : Bool :=
+  match h.fajr with
+  | some f => f.extreme
+  | none => false
+
+/-- get_imsaak, given how to run the policy layer for a parameter set.  The fallback (Fajr's time
+    minus the Imsaak interval / 1.5 min) is taken when the Fajr of the adjusted parameters is
+    extreme or the Fajr actually reported (caller's parameters) is (`||` short-circuits). -/
 def imsaakOf (p : Params α) (run : Params α → Except Panic (PHours α)) : Except Panic (Option PT) :=
   match run (imsaakParams1 p) with
   | .error e => .error e
   | .ok h1 =>
-    let redo := match h1.fajr with
-      | some f => f.extreme
-      | none => false
-    if redo then
-      match run (imsaakParams2 p) with
-      | .error e => .error e
-      | .ok h2 =>
-        match h2.fajr with
-        | none => .ok none
-        | some f => match toPrayerTime (imsaakParams2 p) .Fajr f with
-          | .error e => .error e
-          | .ok t => .ok (some t)
-    else
-      match h1.fajr with
-      | none => .ok none
-      | some f => match toPrayerTime (imsaakParams1 p) .Fajr f with
+    let redoE : Except Panic Bool :=
+      if fajrExtreme h1 then .ok true
+      else match run p with
         | .error e => .error e
-        | .ok t => .ok (some t)
+        | .ok h0 => .ok (fajrExtreme h0)
+    match redoE with
+    | .error e => .error e
+    | .ok redo =>
+      if redo then
+        match run (imsaakParams2 p) with
+        | .error e => .error e
+        | .ok h2 => optTime (imsaakParams2 p) .Fajr h2.fajr
+      else optTime (imsaakParams1 p) .Fajr h1.fajr
 
 def getImsaak (p : Params α) (t : TopAstroDay α) (w : Weather α) : Except Panic (Option PT) :=
   imsaakOf p (fun q => getHoursAdjExt q t w)
@@ -128,12 +136,6 @@ structure DayTimes where
   magh : Option PT
   isha : Option PT
   deriving DecidableEq, Repr, Inhabited
-
-def optTime (p : Params α) (prayer : Prayer) : Option (PH α) → Except Panic (Option PT)
-  | none => .ok none
-  | some ph => match toPrayerTime p prayer ph with
-    | .error e => .error e
-    | .ok t => .ok (some t)
 
 /-- assembling the result map from adjusted hours and Imsaak -/
 def assemble (p : Params α) (h : PHours α) (imsaak : Except Panic (Option PT)) : Except Panic DayTimes :=
